@@ -34,7 +34,8 @@ Stats0 == [events |-> 0, subsets |-> 0, subsets_ok |-> 0, subsets_refused |-> 0,
            comp_scale |-> 0, comp_xy_scale |-> 0, comp_two_by_two |-> 0, comp_two_by_two_asymmetric |-> 0,
            comp_negative_transform |-> 0, comp_point_args |-> 0, composite_with_instructions |-> 0,
            transformed_outlines_compared |-> 0,
-           kind_glyf |-> 0, kind_cff |-> 0, kind_cid |-> 0, kind_cff2 |-> 0]
+           kind_glyf |-> 0, kind_cff |-> 0, kind_cid |-> 0, kind_cff2 |-> 0,
+           seac_closed_compared |-> 0, seac_open_lost |-> 0, seac_open_kept |-> 0]
 
 \* ---- Subset events ------------------------------------------------------------------
 \* the observation as the model's records, and the source's component function on the retained glyphs
@@ -93,11 +94,16 @@ HasNegative(p) == \E i \in 1 .. Len(p[4]) : p[4][i] < 0
 IsPointArgs(p) == (p[1] & FlXY) = 0
 Readable(r) == r.kind \in {"empty", "simple", "composite"}
 
+\* e.a.seac: 0 no accented glyph, SeacClosed: base and accent are requested too, SeacOpen: one of them is not
+SeacClosed == 1
+SeacOpen == 2
 GlyphBad(e) ==
      (IF sub.ok /\ e.a.new < sub.n_out /\ sub.olds[e.a.new + 1] = e.a.old THEN {} ELSE {"event-binding"})
-  \* outline(out, n) = outline(src, o): the command sequences are equal
+  \* outline(out, n) = outline(src, o): the command sequences are equal.  An accented glyph (seac) whose base or
+  \* accent is not among the requested glyphs (e.a.seac = SeacOpen) may have lost its outline
+  \* (Dev_SeacComponentsNotPulledIn of Subset.tla); if it still draws, it draws what it drew in the source.
   \cup (IF ~e.o.src.ok THEN {}
-        ELSE IF ~e.o.out.ok THEN {"outline-lost"}
+        ELSE IF ~e.o.out.ok THEN (IF e.a.seac = SeacOpen THEN {} ELSE {"outline-lost"})
         ELSE IF SameOutline(e.o.src.cmds, e.o.out.cmds) THEN {} ELSE {"outline"})
   \cup (IF e.a.metrics /\ e.o.adv[1] # e.o.adv[2] THEN {"advance"} ELSE {})
   \cup (IF e.a.metrics /\ e.o.lsb[1] # e.o.lsb[2] THEN {"lsb"} ELSE {})
@@ -149,7 +155,10 @@ Bump(s, e) ==
               !.kind_glyf = @ + (IF e.a.kind = "glyf" THEN 1 ELSE 0),
               !.kind_cff = @ + (IF e.a.kind = "cff" THEN 1 ELSE 0),
               !.kind_cid = @ + (IF e.a.kind = "cid" THEN 1 ELSE 0),
-              !.kind_cff2 = @ + (IF e.a.kind = "cff2" THEN 1 ELSE 0)]
+              !.kind_cff2 = @ + (IF e.a.kind = "cff2" THEN 1 ELSE 0),
+              !.seac_closed_compared = @ + (IF e.a.seac = SeacClosed /\ both /\ e.o.src.cmds # <<>> THEN 1 ELSE 0),
+              !.seac_open_lost = @ + (IF e.a.seac = SeacOpen /\ e.o.src.ok /\ ~e.o.out.ok THEN 1 ELSE 0),
+              !.seac_open_kept = @ + (IF e.a.seac = SeacOpen /\ both THEN 1 ELSE 0)]
   ELSE [s EXCEPT !.events = @ + 1]
 
 RECURSIVE SetSeq(_)
@@ -159,7 +168,7 @@ Report(e, bad) ==
   IF e.ev = "Subset"
   THEN PrintT(<<"MISMATCH", ToJson([i |-> e.i, case |-> e.case, ev |-> "Subset", kind |-> e.a.kind, api |-> e.a.api,
                                     class |-> SetSeq(bad), err |-> e.o.err, n_ids |-> Len(e.a.ids), n_out |-> e.o.n_out,
-                                    ids |-> FirstN(e.a.ids, 12), olds |-> FirstN(e.o.olds, 16)])>>)
+                                    ids |-> FirstN(e.a.ids, 12), olds |-> FirstN(e.o.olds, 16), ctx |-> ""])>>)
   ELSE LET d == IF e.o.src.ok /\ e.o.out.ok THEN FirstDiff(e.o.src.cmds, e.o.out.cmds) ELSE 0 IN
        PrintT(<<"MISMATCH", ToJson([i |-> e.i, case |-> e.case, ev |-> "Glyph", kind |-> e.a.kind, api |-> "",
                                     class |-> SetSeq(bad), err |-> e.o.out.err, new |-> e.a.new, old |-> e.a.old,
@@ -167,7 +176,7 @@ Report(e, bad) ==
                                     nsrc |-> Len(e.o.src.cmds), nout |-> Len(e.o.out.cmds), at |-> d,
                                     want |-> IF d > 0 THEN Around(e.o.src.cmds, d) ELSE <<>>,
                                     got |-> IF d > 0 THEN Around(e.o.out.cmds, d) ELSE <<>>,
-                                    isrc_kind |-> e.o.isrc.kind, iout_kind |-> e.o.iout.kind])>>)
+                                    isrc_kind |-> e.o.isrc.kind, iout_kind |-> e.o.iout.kind, ctx |-> e.a.ctx])>>)
 
 TInit == l = 1 /\ sub = NoSub /\ stats = Stats0
 
